@@ -287,3 +287,48 @@ func c15bIgnoreLines(maxNonPlain int) {
 	ign := ignore.ReadIgnoreAnnotations(config.Default(), pass)
 	nd.Assert(ign.Len() == want, "one @ignore marker per well-formed @ignore line, independent of the other lines of its comment group")
 }
+
+const c15bParenSrc = `package d
+
+//«p1»
+type P (struct {
+	//«p2»
+	pf int
+})
+`
+
+// ZZC15bParenStruct: the struct type of the declaration is written in parentheses (legal, kept by gofmt): the doc of its
+// named field is still the place of @mutable.
+func ZZC15bParenStruct() {
+	p1 := nd.EnumPad("p1", c15bAlts...)
+	p2 := nd.EnumPad("p2", c15bAlts...)
+	prog := nd.LoadProgram([]nd.File{{Pkg: "zzmod/d", Name: "d.go", Src: c15bParenSrc}}, []nd.Hole{{Name: "p1", Value: p1}, {Name: "p2", Value: p2}})
+	var raw []analysis.Diagnostic
+	pass := NewPass(prog, "zzmod/d", Facts{}, &raw)
+	ann := annotations.ReadAllAnnotations(config.Default(), pass)
+	width := 0
+	for _, a := range c15bAlts {
+		if len(a) > width {
+			width = len(a)
+		}
+	}
+	is := func(v, kw string) bool {
+		r := false
+		for _, alt := range c15bAlts {
+			if c15bKeyword(alt) == kw {
+				padded := alt
+				for len(padded) < width {
+					padded += " "
+				}
+				r = nd.Or(r, v == padded)
+			}
+		}
+		return r
+	}
+	wantMut := nd.IteInt(nd.And(is(p1, "immutable"), is(p2, "mutable")), 1, 0)
+	nd.Assert(len(ann.ImmutableAnnotations) == nd.IteInt(is(p1, "immutable"), 1, 0), "@immutable on a type whose struct type is parenthesised")
+	nd.Assert(len(ann.MutableAnnotations) == wantMut, "@mutable on the named field of a parenthesised struct type of an @immutable type")
+	for _, m := range ann.MutableAnnotations {
+		nd.Assert(nd.And(m.OnType == "P", m.FieldName == "pf"), "@mutable attached to the documented field")
+	}
+}
